@@ -7,7 +7,11 @@ D=/tmp/s/$ID
 export GOFLAGS=-mod=mod GOPROXY=off GOSUMDB=off GOTOOLCHAIN=local
 DEMO=""; while [ "$1" != "--" ]; do DEMO="$DEMO $1"; shift; done; shift
 cd $D/repo || exit 2
-test "$(git rev-parse HEAD)" = "$(git -C /repo rev-parse HEAD)" || { echo "worktree not at /repo HEAD"; exit 2; }
+RH=$(git -C /repo rev-parse HEAD)
+if [ "$(git rev-parse HEAD)" != "$RH" ]; then
+  # /repo moved on (hook-only commits) since the seed was written: carry the uncommitted change over to /repo's HEAD
+  git merge-base --is-ancestor HEAD $RH && git checkout -q --detach $RH || { echo "worktree not at /repo HEAD and cannot be advanced"; exit 2; }
+fi
 git diff --quiet -- . ':!*zz_seeded*' && { echo "worktree has no change applied"; exit 2; }
 echo "== demo WITH change (expect FAIL)"; go test -vet=off -count=1 $DEMO 2>&1 | grep -E "^(ok|FAIL|---|panic)" | head -5
 git apply -R $D/out/patch.diff || { echo "cannot reverse"; exit 2; }
